@@ -10,9 +10,9 @@ NOTE = ("Trusted: Coq 8.16.1 kernel, gen/translate.py, extraction (ExtrOcamlBasi
 CLAIMED = {
     "C01": ("Reference loop semantics of all operation families as executable Gallina index plans (Spec/LoopSem.v) with theorems on the "
             "position arithmetic; Model/Lower.v models the lowering of rearrangements with nested flattened axes (reshape - transpose - "
-            "reshape as a term of Model/Opt.v) and Props/C01.v proves that it puts every element where the loop notation says, for all "
-            "expressions and sizes; the graph einx traces for such calls is compared with the model's term by the extracted, proved-sound "
-            "equivalence checker; every generated well-formed call of every family is evaluated by the extracted spec and compared with "
+            "reshape as a term of Model/Opt.v) and the alignment of element-wise inputs, and Props/C01.v proves that they put every element "
+            "where the loop notation says, for all expressions and sizes; the graph einx traces for such calls is compared with the model's "
+            "term by the extracted, proved-sound equivalence checker; every generated well-formed call of every family is evaluated by the extracted spec and compared with "
             "einx on numpy, numpy.numpylike, numpy.einsum (OperationNotSupportedError is the only other accepted outcome)",
             "proof of spec lemmas + verified lowering model for the rearrangement core + value correspondence against the extracted Coq reference semantics", "DESIGN.md 3/C01"),
     "C08": ("Equivariance theorems on the reference semantics (regrouping for any nesting depth; renaming, permutation) plus metamorphic "
@@ -78,7 +78,9 @@ CLAIMED.update({
             "frontend/backend.py; the unlocked pinned behaviour is refuted by a concrete schedule. A deterministic scheduler (sys.settrace, "
             "pre-emption before every source line of backend.py, lock-aware) replays random schedules of 2-3 real threads and compares "
             "with all serial interleavings evaluated by the extracted registry model; part B runs whole einx calls (first-time tracing, "
-            "compilation, cache fill) in 2-3 threads under controlled hand-over points and compares every result with the call executed alone",
+            "compilation, cache fill) in 2-3 threads under controlled hand-over points and compares every result with the call executed alone; "
+            "part C stops a cached call before every source line of api.py / backend.py while another thread enters / leaves with-blocks (and "
+            "vice versa), and stops two first-time calls at every pair of lines of einx functions that assign module-level variables",
             "Coq serialisability proof over an interleaving model + deterministic schedule replay on real threads", "DESIGN.md 3/C10"),
     "C11": ("Specification select (function of argument, with-stack, argument types and the set of available backends) with theorems: "
             "order independence under permutation of the declarations, precedence chain, invalid backends never candidates, and the refinement "
